@@ -31,6 +31,11 @@ CLAIMED = {
     text='TLC generates Sp(2n,F2) as a state machine (closure under all transvections), checks the symplectic condition and the two-sided closed-form inverse in every state and that the number of states equals the order formula (n=1,2 also against a brute-force count over all binary matrices; n=3 in thorough). The real from_int_tuple/to_int_tuple/inverse are then driven over the COMPLETE mixed-radix index domain in lexicographic order and the recorded trace is validated by TLC (successor tuple, symplectic image, left inverse, two-sided inverse): with |domain| = |group| this is bijectivity. Every symplectic matrix of the model is mapped back to an index; find_transvection is validated on every ordered pair of non-zero vectors.',
     note='Trusted: TLC/SANY, JSON trace encoding (rows packed as integers < 2^20). Complete for n<=2 (quick), n<=3 enumeration and n<=4 vector pairs (thorough); random tuples to n=10.',
     technique='TLA+ spec of Sp(2n,F2) + TLC exhaustive group generation; TLC trace validation of the complete recorded enumeration'),
+ 'C10': dict(
+    cat='model_checking', ref='6/C10',
+    text='Seeded generation is specified as a state machine over call histories (global numpy/python/torch generators, unseeded calls, seeded calls, fresh seeded generator objects; a seeded call is enabled iff its output equals the memoised output for that seed). TLC enumerates all 16105 histories of length <=4; for every public function of numqi.random and every optional-argument branch (53 call patterns, plus measure_quantum_vector, MeasureGate, CliffordCircuit.random_*, and in thorough CHABoundaryBagging.solve / optimize.minimize) histories containing two equal-seed calls are executed against the real code, digests of the raw results recorded, and the traces validated by TLC - a rejected SeededCall/PassGenerator event is a reproducibility violation. Membership of the DISCRETE generators (rand_F2 flags, rand_SpF2, rand_Clifford_group, rand_pauli Hermiticity, rand_adjacent_matrix) is decided exactly by TLC on recorded outputs.',
+    note='NOT covered: membership of continuous outputs (unitary, PSD, POVM, Kraus...) - analytic. Bit-identical digests presume deterministic BLAS (torch threads pinned to 1). 14 histories per pattern in quick, 150 in thorough.',
+    technique='TLA+ state machine of seeded generation over call histories; TLC exhaustive history enumeration; TLC trace validation of recorded digests and of discrete outputs'),
  'C11': dict(
     cat='model_checking', ref='6/C11',
     text='Projective measurement is specified over exact Z[w] state vectors (Born marginals in Z[sqrt2], projection onto the outcome). TLC enumerates every n<=5 (6 thorough), every non-empty ascending qubit subset and ten structured state families (basis, product, GHZ, W, graph, zero-probability outcomes, Clifford+T), checking the measurement axioms on the model (probabilities real and summing to the norm, repeated measurement idempotent, projections resolve the state); for each configuration the real measure_quantum_vector is run over seeds until every outcome of the support was seen (remaining outcomes are forced through a Generator subclass) and probabilities, outcome membership, post-measurement state and the repeated measurement are compared with the exact values. Mid-circuit: TLC simulates circuits with measure gates, drawing outcomes from the support of the state at that point; the programs are replayed through real Circuit/MeasureGate objects and the recorded bitstr/probability/final state compared.',
